@@ -235,13 +235,15 @@ func init() {
 		}
 		defer stop()
 		targets := []int{0, 1, 2, 126, 127, 128, 129, 16382, 16383, 16384, 16385, 2097150, 2097151, 2097152, 2097153}
+		// over the limit: denied before anything is copied (the zero buffer is never touched)
+		targets = append(targets, 268435456, 268435457, 268435458)
 		if thorough {
-			targets = append(targets, 268435454, 268435455, 268435456)
+			targets = append(targets, 268435454, 268435455)
 		}
 		topic := "t"
-		big := make([]byte, 268435460)
+		big := make([]byte, 268435470)
 		for _, rl := range targets {
-			for _, qos := range []int{0, 1} {
+			for _, qos := range []int{0, 1, 2} {
 				if !e.mine() {
 					continue
 				}
@@ -258,8 +260,12 @@ func init() {
 					err = c.Publish(nil, big[:n], topic)
 				} else {
 					var ch <-chan error
-					ch, err = c.PublishAtLeastOnce(big[:n], topic)
-					if err == nil {
+					if qos == 1 {
+						ch, err = c.PublishAtLeastOnceRetained(big[:n], topic)
+					} else {
+						ch, err = c.PublishExactlyOnce(big[:n], topic)
+					}
+					if err == nil && rl <= 268435455 {
 						for range ch {
 						}
 					}
